@@ -1,6 +1,6 @@
 (* C32 proofs: copy selection (idempotence, faithfulness of the written snapshot) and
    crash-prefix safety of the destination write trace (data before snapshots). *)
-From Restic Require Import Base.Prelude Model.C32m.
+From Restic Require Import Base.Prelude Model.C32m Gen.ParamsC32.
 Import C32m.
 
 (* ---------- (b) trace ---------- *)
@@ -447,3 +447,16 @@ Definition ex_graph : graph := [(10, ([20], [1; 2])); (11, ([20], [2; 3])); (20,
 Example c32_nonvacuous_walk :
   copy_trees ex_graph 20 ([], [5]%N) [10; 11]%N = Some ([11; 20; 10]%N, [5; 10; 1; 2; 20; 4; 11; 3]%N).
 Proof. vm_compute. reflexivity. Qed.
+
+(* ---------- similarSnapshots: the compared field set, tied to the running code ---------- *)
+(* regenerated constants (probing of the real similarSnapshots) against the field set the model assumes *)
+Lemma similar_field_set_pinned :
+  ParamsC32.similar_mask = expected_similar_mask /\
+  ParamsC32.snapshot_fields = expected_field_count /\
+  Z.testbit ParamsC32.similar_mask ParamsC32.idx_tree = true /\
+  Z.testbit ParamsC32.similar_mask ParamsC32.idx_time = true /\
+  Z.testbit ParamsC32.similar_mask ParamsC32.idx_parent = false /\
+  Z.testbit ParamsC32.similar_mask ParamsC32.idx_original = false /\
+  ParamsC32.paths_order_sensitive = 0%Z /\ ParamsC32.tags_order_sensitive = 0%Z /\
+  ParamsC32.excludes_order_sensitive = 1%Z.
+Proof. vm_compute. repeat split. Qed.
